@@ -111,6 +111,80 @@ def callResult (caller : St) (rest : List Nat) : Res → Res
     | [] => .stuck
   | r => r
 
+/-- sequencing: continue with `f` after a normal completion -/
+def Res.andThen (r : Res) (f : St → Res) : Res :=
+  match r with
+  | .fall st => f st
+  | r => r
+
+/-- leaving a `block`/`if`: normal completion or a branch to its label continue after the construct with the
+operand stack of the entry; outer branches lose one level -/
+def Res.leave (r : Res) (outer : List Nat) (f : St → Res) : Res :=
+  match r with
+  | .fall st | .br 0 st => f { st with stack := outer }
+  | .br (d + 1) st => .br d st
+  | r => r
+
+/-- a non-control instruction: `none` = ill-typed, `some (.inl trap)`, `some (.inr st')` -/
+def stepOp (o : Op) (st : St) : Option (Trap ⊕ St) :=
+  match o with
+  | .const v => some (.inr { st with stack := v % M64 :: st.stack })
+  | .bin b =>
+    match st.stack with
+    | y :: x :: r =>
+      match evalBin b x y with
+      | some v => some (.inr { st with stack := v :: r })
+      | none => some (.inl .divByZero)
+    | _ => none
+  | .cmp c =>
+    match st.stack with
+    | y :: x :: r => some (.inr { st with stack := evalCmp c x y :: r })
+    | _ => none
+  | .eqz =>
+    match st.stack with
+    | x :: r => some (.inr { st with stack := (if x = 0 then 1 else 0) :: r })
+    | _ => none
+  | .extend =>
+    match st.stack with
+    | x :: r => some (.inr { st with stack := x :: r })
+    | _ => none
+  | .localGet i =>
+    match st.locals[i]? with
+    | some v => some (.inr { st with stack := v :: st.stack })
+    | none => none
+  | .localSet i =>
+    match st.stack with
+    | x :: r =>
+      match setNth st.locals i x with
+      | some ls => some (.inr { st with stack := r, locals := ls })
+      | none => none
+    | _ => none
+  | .localTee i =>
+    match st.stack with
+    | x :: r =>
+      match setNth st.locals i x with
+      | some ls => some (.inr { st with stack := x :: r, locals := ls })
+      | none => none
+    | _ => none
+  | .drop =>
+    match st.stack with
+    | _ :: r => some (.inr { st with stack := r })
+    | _ => none
+  | .select =>
+    match st.stack with
+    | c :: b :: a :: r => some (.inr { st with stack := (if c = 0 then b else a) :: r })
+    | _ => none
+  | .nop => some (.inr st)
+  | .unreachable => some (.inl .unreachable)
+  | _ => none
+
+/-- continue after a non-control instruction -/
+def stepK (r : Option (Trap ⊕ St)) (gas : Nat) (f : St → Res) : Res :=
+  match r with
+  | none => .stuck
+  | some (.inl t) => .trap t gas
+  | some (.inr st') => f st'
+
 mutual
 /-- big-step execution with fuel (every node consumes one unit) -/
 def exec (funcs : List Func) (budget : Option Nat) : Nat → Code → St → Res
@@ -121,81 +195,28 @@ def exec (funcs : List Func) (budget : Option Nat) : Nat → Code → St → Res
     | none => .oog st0.gas
     | some st =>
       match o with
-      | .const v => exec funcs budget fuel k { st with stack := v % M64 :: st.stack }
-      | .bin b =>
-        match st.stack with
-        | y :: x :: r =>
-          match evalBin b x y with
-          | some v => exec funcs budget fuel k { st with stack := v :: r }
-          | none => .trap .divByZero st.gas
-        | _ => .stuck
-      | .cmp c =>
-        match st.stack with
-        | y :: x :: r => exec funcs budget fuel k { st with stack := evalCmp c x y :: r }
-        | _ => .stuck
-      | .eqz =>
-        match st.stack with
-        | x :: r => exec funcs budget fuel k { st with stack := (if x = 0 then 1 else 0) :: r }
-        | _ => .stuck
-      | .extend =>
-        match st.stack with
-        | x :: r => exec funcs budget fuel k { st with stack := x :: r }
-        | _ => .stuck
-      | .localGet i =>
-        match st.locals[i]? with
-        | some v => exec funcs budget fuel k { st with stack := v :: st.stack }
-        | none => .stuck
-      | .localSet i =>
-        match st.stack with
-        | x :: r =>
-          match setNth st.locals i x with
-          | some ls => exec funcs budget fuel k { st with stack := r, locals := ls }
-          | none => .stuck
-        | _ => .stuck
-      | .localTee i =>
-        match st.stack with
-        | x :: r =>
-          match setNth st.locals i x with
-          | some ls => exec funcs budget fuel k { st with stack := x :: r, locals := ls }
-          | none => .stuck
-        | _ => .stuck
-      | .drop =>
-        match st.stack with
-        | _ :: r => exec funcs budget fuel k { st with stack := r }
-        | _ => .stuck
-      | .select =>
-        match st.stack with
-        | c :: b :: a :: r => exec funcs budget fuel k { st with stack := (if c = 0 then b else a) :: r }
-        | _ => .stuck
-      | .nop => exec funcs budget fuel k st
       | .br d => .br d st
       | .brIf d =>
         match st.stack with
         | c :: r => if c = 0 then exec funcs budget fuel k { st with stack := r } else .br d { st with stack := r }
         | _ => .stuck
       | .ret => .ret st
-      | .unreachable => .trap .unreachable st.gas
       | .call f =>
         match funcs[f]? with
         | none => .stuck
         | some fn =>
           if st.stack.length < fn.params then .stuck
           else
-            let args := (st.stack.take fn.params).reverse
-            let rest := st.stack.drop fn.params
-            match callResult st rest
+            (callResult st (st.stack.drop fn.params)
                 (exec funcs budget fuel fn.body
-                  { stack := [], locals := args ++ List.replicate fn.locals 0, gas := st.gas }) with
-            | .fall st' => exec funcs budget fuel k st'
-            | r => r
+                  { stack := [], locals := (st.stack.take fn.params).reverse ++ List.replicate fn.locals 0,
+                    gas := st.gas })).andThen (fun st' => exec funcs budget fuel k st')
+      | o => stepK (stepOp o st) st.gas (fun st' => exec funcs budget fuel k st')
   | fuel + 1, .block g body k, st0 =>
     match charge budget g st0 with
     | none => .oog st0.gas
     | some st =>
-      match exec funcs budget fuel body { st with stack := [] } with
-      | .fall st' | .br 0 st' => exec funcs budget fuel k { st' with stack := st.stack }
-      | .br (d + 1) st' => .br d st'
-      | r => r
+      (exec funcs budget fuel body { st with stack := [] }).leave st.stack (fun st' => exec funcs budget fuel k st')
   | fuel + 1, .loop g body k, st0 =>
     match charge budget g st0 with
     | none => .oog st0.gas
@@ -206,10 +227,8 @@ def exec (funcs : List Func) (budget : Option Nat) : Nat → Code → St → Res
     | some st =>
       match st.stack with
       | c :: r =>
-        match exec funcs budget fuel (if c = 0 then e else t) { st with stack := [] } with
-        | .fall st' | .br 0 st' => exec funcs budget fuel k { st' with stack := r }
-        | .br (d + 1) st' => .br d st'
-        | res => res
+        (exec funcs budget fuel (if c = 0 then e else t) { st with stack := [] }).leave r
+          (fun st' => exec funcs budget fuel k st')
       | _ => .stuck
 
 /-- iterations of a loop body (a branch to the loop label re-enters the body) -/
